@@ -21,6 +21,7 @@ import (
 	"context"
 	"errors"
 	"fmt"
+	"os"
 	"regexp"
 	"strings"
 	"sync"
@@ -147,6 +148,7 @@ type subsc struct {
 	wasTainted bool
 	// the client resubscribed after a restore with a non-zero index and was NOT sent a new snapshot
 	resumedAcross bool
+	caseVariant   string // health views: an update named an instance whose key differs from a key in the view only by the case of the node name
 	snapSubNo     int // ordinal of the subscription that delivered the client's latest snapshot
 	nonTypical    string // service list: an update received since the last snapshot that no change of the typical-kind names accounts for
 	// obligations to have left the subscription that was open when a restore / an ACL change of the
@@ -289,6 +291,18 @@ func (s *sched) commit(class, desc string, data []byte, closes []string) any {
 	for i := 0; i < nb; i++ {
 		s.pendingQ = append(s.pendingQ, batch{commit: idx, epoch: s.epoch, closes: closes, desc: class})
 	}
+	if nb == 0 && len(closes) > 0 {
+		// nothing was queued for this commit, so nothing is left that could terminate the subscriptions
+		// of the affected tokens later: the obligation is due now
+		for _, sec := range closes {
+			for _, sb := range s.subs {
+				if sb.token == sec {
+					sb.oblig["acl-change"] = len(sb.subsDoneCopy())
+					s.run.Count("acl-close-obligations")
+				}
+			}
+		}
+	}
 	if nb > 1 {
 		// the command committed several transactions at one raft index: between their batches a
 		// subscriber legitimately holds an intermediate state the monitor has no record of
@@ -302,6 +316,9 @@ func (s *sched) commit(class, desc string, data []byte, closes []string) any {
 	s.run.Distinct("command-class", class)
 	if s.sync {
 		s.drainAll()
+	}
+	if nb == 0 && len(closes) > 0 {
+		s.settle()
 	}
 	return res
 }
@@ -568,16 +585,29 @@ func (s *sched) checkDelivery(sb *subsc, dl delivery, canQuery bool) {
 	}
 	if d == 0 {
 		// an empty snapshot immediately followed by further deliveries: its index was not observable
+		s.logf("  client %d (%s) %s delivery without events on its subscription #%d (opened with index %d after commit @%d), index not observable (the next delivery is already waiting)", sb.id, sj.Name, kind, dl.subNo, info.index, info.commit)
 		s.run.Count("deliveries:index-unobservable")
 		if dl.snapshot {
-			sb.tainted = false
+			// a new snapshot all the same: the client's history restarts here
+			sb.tainted, sb.resumedAcross, sb.nonTypical, sb.caseVariant = false, false, "", ""
+			sb.snapSubNo, sb.haveLast = dl.subNo, false
 		}
 		return
 	}
-	s.logf("  client %d (%s) %s delivery at index %d (%d events)", sb.id, sj.Name, kind, d, dl.n)
+	s.logf("  client %d (%s) %s delivery at index %d (%d events) on its subscription #%d (opened with index %d after commit @%d)", sb.id, sj.Name, kind, d, dl.n, dl.subNo, info.index, info.commit)
 
 	if sj.Class == "service-list" && !dl.snapshot {
 		s.noteServiceListOps(sb, d, dl.ops)
+	}
+	if (sj.Class == "health" || sj.Class == "connect") && sb.caseVariant == "" {
+		for _, op := range dl.ops {
+			_, oid, _ := strings.Cut(op, ":")
+			for _, l := range strings.Split(dl.content, "\n") {
+				if lid, _, _ := strings.Cut(l, " = "); lid != oid && strings.EqualFold(lid, oid) {
+					sb.caseVariant = fmt.Sprintf("the update %q at index %d did not address the view's entry %s", op, d, lid)
+				}
+			}
+		}
 	}
 	// an event batch committed before a restore, delivered on a subscription opened after it
 	if !dl.snapshot {
@@ -610,7 +640,7 @@ func (s *sched) checkDelivery(sb *subsc, dl delivery, canQuery bool) {
 			// a snapshot carries the index the STORE reports for the subject. If it is exactly what a direct
 			// query reported when the client subscribed, the stream only passed on that the store's own
 			// index for this query is not monotonic / lags behind commits that changed the answer (C06's matter).
-			if r, ok := s.lookup(sj, epoch, info.commit); ok && r.qidx == d {
+			if r, ok := s.lookup(sj, epoch, info.commit); ok && (r.qidx == d || (r.qidx == 0 && d == 1)) {
 				key = "C11:" + sj.Class + ":snapshot-index-below-earlier-delivered-index:store-query-index-not-monotonic"
 			}
 		}
@@ -639,6 +669,7 @@ func (s *sched) checkDelivery(sb *subsc, dl delivery, canQuery bool) {
 	}
 	if dl.snapshot {
 		sb.nonTypical = ""
+		sb.caseVariant = ""
 	}
 	regressed := d < sb.maxIdx
 	if d > sb.maxIdx {
@@ -717,6 +748,9 @@ func (s *sched) classify(sb *subsc, phase string, exp rec, got string, ops []str
 	if sb.resumedAcross {
 		return "C11:restore:resumed-by-index-across-restore:stale-view", "the client resubscribed after the restore with its old index, the server resumed the stream without a new snapshot; " + detail
 	}
+	if sb.caseVariant != "" && (sb.subj.Class == "health" || sb.subj.Class == "connect") {
+		return "C11:health-view:node-name-case-variant:stale-entry-kept", detail + "; " + sb.caseVariant + " (node names are case-insensitive in the catalog, the view's keys are not)"
+	}
 	if cls == "stale-case-variant-node-entry" {
 		return "C11:health-view:node-name-case-variant:stale-entry-kept", detail
 	}
@@ -728,19 +762,22 @@ func (s *sched) classify(sb *subsc, phase string, exp rec, got string, ops []str
 			}
 		}
 		if sb.subj.Class == "connect" {
-			// is the instance still registered, but no longer connect-native?
+			// when the instance was last registered at all, was it still connect-native?
 			plain := strings.Replace(sb.subj.Name, "connect:", "health:", 1)
+		scan:
 			for i := len(s.hist[plain]) - 1; i >= 0; i-- {
 				r := s.hist[plain][i]
 				if r.epoch != exp.epoch || r.commit > exp.commit {
 					continue
 				}
 				for _, l := range strings.Split(r.content, "\n") {
-					if lid, _, _ := strings.Cut(l, " = "); strings.EqualFold(lid, id) && !strings.Contains(l, "Connect:{Native:true}") && !strings.Contains(l, `Kind:"`) {
-						return "C11:connect:instance-no-longer-connect-native:no-deregister-update", fmt.Sprintf("%s is still in the view of the Connect topic; the instance was re-registered without Connect.Native and is no longer in the direct query result, no update removed it", id)
+					if lid, _, _ := strings.Cut(l, " = "); strings.EqualFold(lid, id) {
+						if !strings.Contains(l, "Connect:{Native:true}") && !strings.Contains(l, `Kind:"`) {
+							return "C11:connect:instance-no-longer-connect-native:no-deregister-update", fmt.Sprintf("%s is still in the view of the Connect topic; the instance was re-registered without Connect.Native (last seen as a plain instance after commit @%d) and no update removed it from the Connect view", id, r.commit)
+						}
+						break scan
 					}
 				}
-				break
 			}
 		}
 	}
@@ -1093,6 +1130,13 @@ func (s *sched) genCommand() gen.Cmd {
 	return c
 }
 
+func (s *sched) pickSubject() *subject {
+	if s.rng.Chance(35) {
+		return s.subjs[s.rng.Intn(2)] // the service-health subjects (web, connect web) get most clients
+	}
+	return core.Pick(s.rng, s.subjs)
+}
+
 func weights() gen.Weights {
 	return gen.Weights{Catalog: 50, Txn: 10, Config: 26, KV: 2, Session: 3, Peering: 2, VIP: 1, SysMeta: 2, Intention: 2}
 }
@@ -1120,35 +1164,35 @@ func runSchedule(run *core.Run, rng *core.Rand, name string, nsteps int) {
 		s.drainAll()
 	}
 
+	// a few clients are there from the start
+	for i := 0; i < 3; i++ {
+		s.newClient(s.pickSubject(), core.Pick(rng, tokensOfClients), rng.Chance(40))
+	}
 	for step := 0; step < nsteps && !s.stop && run.Violations() <= 30; step++ {
 		pending := s.r.pub.VerifPending()
 		k := rng.Intn(100)
 		switch {
-		case k < 36:
+		case k < 38:
 			if pending >= 56 {
 				s.drainOne()
 				continue
 			}
 			c := s.genCommand()
 			s.commit(c.Class, c.Desc, c.Bytes, nil)
-		case k < 56:
+		case k < 60:
 			if !s.drainOne() {
 				c := s.genCommand()
 				s.commit(c.Class, c.Desc, c.Bytes, nil)
 			}
-		case k < 66:
+		case k < 67:
 			if len(s.subs) >= 7 {
 				if idle := s.idleClients(); len(idle) > 0 {
 					s.removeClient(core.Pick(rng, idle))
 				}
 				continue
 			}
-			sj := core.Pick(rng, s.subjs)
-			if rng.Chance(35) {
-				sj = s.subjs[rng.Intn(2)] // the service-health subjects get most clients
-			}
-			s.newClient(sj, core.Pick(rng, tokensOfClients), rng.Chance(40))
-		case k < 76:
+			s.newClient(s.pickSubject(), core.Pick(rng, tokensOfClients), rng.Chance(40))
+		case k < 77:
 			// a lazy client consumes one delivery
 			var parked []*subsc
 			for _, sb := range s.subs {
@@ -1173,19 +1217,19 @@ func runSchedule(run *core.Run, rng *core.Rand, name string, nsteps int) {
 			s.aclChange()
 		case k < 84:
 			s.takeSnapshot()
-		case k < 88:
+		case k < 87:
 			s.restore(rng.Chance(50))
-		case k < 91:
+		case k < 90:
 			if s.ttl > 0 {
 				s.advance()
 			} else {
 				s.drainOne()
 			}
-		case k < 94:
+		case k < 93:
 			if idle := s.idleClients(); len(idle) > 0 {
 				s.removeClient(core.Pick(rng, idle))
 			}
-		case k < 97:
+		case k < 96:
 			if idle := s.idleClients(); len(idle) > 0 {
 				s.reconnect(core.Pick(rng, idle))
 			}
@@ -1221,6 +1265,9 @@ func runSchedule(run *core.Run, rng *core.Rand, name string, nsteps int) {
 		}
 	}
 
+	if os.Getenv("VERIF_C11_ONLY") != "" {
+		fmt.Println(strings.Join(s.steps, "\n"))
+	}
 	run.Eval()
 	if s.kinds["delivery:snapshot"] && s.kinds["delivery:event"] && (s.kinds["restore"] || s.kinds["acl-change"]) {
 		run.NonTrivial(core.Hash(strings.Join(s.steps, "\n")))
@@ -1243,7 +1290,7 @@ func runSchedule(run *core.Run, rng *core.Rand, name string, nsteps int) {
 }
 
 func TestZZVerifC11(t *testing.T) {
-	if zvRace {
+	if zvRace || os.Getenv("VERIF_C11_FREE") != "" { // (the variable: the free-running part without the race detector, for debugging)
 		freeRunning(t)
 		return
 	}
@@ -1279,6 +1326,9 @@ func TestZZVerifC11(t *testing.T) {
 						return
 					}
 					name := fmt.Sprintf("s%d", i)
+					if only := os.Getenv("VERIF_C11_ONLY"); only != "" && only != name { // (debugging aid: replay one schedule)
+						continue
+					}
 					synctest.Test(t, func(t *testing.T) {
 						runSchedule(run, forks[i], name, nsteps)
 					})
@@ -1289,7 +1339,7 @@ func TestZZVerifC11(t *testing.T) {
 	run.Floor("step:commit", nsched*10)
 	run.Floor("step:drain", nsched*8)
 	run.Floor("deliveries:snapshot", nsched*3)
-	run.Floor("deliveries:event", nsched*3)
+	run.Floor("deliveries:event", nsched*2)
 	run.Floor("delivery-checks", nsched*5)
 	run.Floor("quiescent-checks", nsched*5)
 	run.Floor("relevant-changes", nsched*3)
